@@ -463,7 +463,7 @@ Lemma accepted_wf p : accepted_request p = true -> wf_packet p && (nth 8 p 0 =? 
 Proof. unfold accepted_request. intros H. apply andb_true_iff in H as [H _]. exact H. Qed.
 
 Lemma valid_cfg_facts g : valid_cfg g = true ->
-  (length (g_msg_types g) <= 30)%nat /\ (1 <= length (g_vendor_ids g))%nat /\ (length (g_vendor_ids g) <= 16)%nat /\
+  (length (g_msg_types g) <= 30)%nat /\ (1 <= length (g_vendor_ids g))%nat /\ (length (g_vendor_ids g) <= 255)%nat /\
   (forall i v, nth_error (g_vendor_ids g) i = Some v -> v_format v <= 1).
 Proof.
   unfold valid_cfg. intros H. apply andb_true_iff in H as [H Hf]. apply andb_true_iff in H as [H H16].
